@@ -2,12 +2,14 @@ package size
 
 import (
 	"encoding/json"
+	"errors"
 	"fmt"
 	"math"
 	"math/rand/v2"
 	"os"
 	"path/filepath"
 	"strings"
+	"syscall"
 	"time"
 
 	"github.com/pion/rtcp"
@@ -143,11 +145,21 @@ func startCase(c *corr.Ctx, who string, wq, max int) {
 			cl.Close()
 		}
 	default:
-		s := &gortsplib.Server{Handler: &handler{}, RTSPAddress: "127.0.0.1:0", WriteQueueSize: wq, MaxPacketSize: max}
-		err = s.Start()
-		if err == nil {
-			wq2, max2 = s.WriteQueueSize, s.MaxPacketSize
-			s.Close()
+		for try := 0; try < 40; try++ {
+			s := &gortsplib.Server{Handler: &handler{}, RTSPAddress: "127.0.0.1:0", WriteQueueSize: wq, MaxPacketSize: max}
+			err = s.Start()
+			if err == nil {
+				wq2, max2 = s.WriteQueueSize, s.MaxPacketSize
+				s.Close()
+			}
+			if err == nil || !errors.Is(err, syscall.EADDRINUSE) {
+				break
+			}
+			time.Sleep(time.Duration(25*(try+1)) * time.Millisecond) // no free port right now (machine shared with other runs)
+		}
+		if err != nil && errors.Is(err, syscall.EADDRINUSE) {
+			c.Note("start case skipped: no free TCP port")
+			return
 		}
 	}
 	impl := "err"
@@ -290,6 +302,11 @@ func wireLine(e Event) string {
 func RunLive(c *corr.Ctx, lc *LiveCase) {
 	scn := lc.Scn
 	l, err := StartLive(scn)
+	for try := 0; err != nil && try < 4; try++ {
+		// loopback ports are shared with whatever else runs on the machine
+		time.Sleep(time.Duration(200*(try+1)) * time.Millisecond)
+		l, err = StartLive(scn)
+	}
 	if err != nil {
 		c.Note(fmt.Sprintf("scenario %s not started: %v", scn, err))
 		c.Dist("live/not-started")
